@@ -574,6 +574,7 @@ int rt_thread_blocked (int tid) { return (mode_b ? T[tid].state == ST_BLOCKED : 
 int rt_thread_in_wait (int tid) { return (mode_b ? T[tid].state == ST_BLOCKED : (T[tid].state != ST_DONE && __atomic_load_n (&T[tid].a_blocked, __ATOMIC_ACQUIRE))); }
 int rt_thread_done (int tid) { return (T[tid].state == ST_DONE); }
 const char *rt_thread_op (int tid) { return (T[tid].op ? T[tid].op : ""); }
+const char *rt_thread_at (int tid) { return (T[tid].at ? T[tid].at : ""); }
 
 /* ------------------------------------------------------------------------------------ */
 /* wrappers: futex */
